@@ -404,10 +404,23 @@ func sameSliceSource(a, b ssa.Value) bool {
 // ---------- length guards ----------
 
 // lenAtLeast: at instruction `at`, len(s) >= need is implied by a dominating branch fact
-// (len(s) == c, len(s) >= c, len(s) > c, or their negated forms from early returns), for the slice value s or a
+// (len(s) == c, len(s) >= c, len(s) > c, len(s) != 0, or their negated forms from early returns), for the slice value s or a
 // re-slice s[lo:] of a guarded base with constant lo.
 func lenAtLeast(s ssa.Value, need int64, at ssa.Instruction) bool {
 	base, lo := s, int64(0)
+	// s[lo:hi] with constant bounds has exactly hi-lo elements once the slice expression itself has been evaluated
+	// (that it does not panic is the business of whoever checks the re-slicing)
+	if sl, ok := s.(*ssa.Slice); ok && sl.High != nil {
+		if hi, ok := constInt(sl.High); ok {
+			l, lok := int64(0), sl.Low == nil
+			if sl.Low != nil {
+				l, lok = constInt(sl.Low)
+			}
+			if lok && hi-l >= need {
+				return true
+			}
+		}
+	}
 	if sl, ok := s.(*ssa.Slice); ok && sl.High == nil && sl.Max == nil {
 		if sl.Low == nil {
 			base = sl.X
@@ -438,6 +451,11 @@ func lenAtLeast(s ssa.Value, need int64, at ssa.Instruction) bool {
 			}
 		case token.GTR:
 			if eff+1 >= need {
+				return true
+			}
+		case token.NEQ:
+			// len(s) != 0 (the negated `len(s) == 0` of an emptiness test): at least one element
+			if k == 0 && 1-lo >= need {
 				return true
 			}
 		}
@@ -568,20 +586,20 @@ func (fc *flowCtx) errPropagatedExcept(fn *ssa.Function, call ssa.Instruction, e
 	if e == nil {
 		return errOutcome{false, "the error result is discarded", call, nil}
 	}
-	// find the branch blocks where e != nil is known
+	// find the branch targets where e != nil is known: the successor of an `if` on the edge on which its condition says
+	// so. The target may be a join block (the exit of `for …; err == nil && ok; …` is entered from both operands of the
+	// &&): what matters is that control can get there with the error known to be set.
 	var errBlocks []*ssa.BasicBlock
-	for _, b := range fn.Blocks {
-		if len(b.Preds) != 1 {
-			continue
-		}
-		p := b.Preds[0]
+	for _, p := range fn.Blocks {
 		iff, ok := p.Instrs[len(p.Instrs)-1].(*ssa.If)
-		if !ok {
+		if !ok || len(p.Succs) != 2 || p.Succs[0] == p.Succs[1] {
 			continue
 		}
-		for _, c := range trueCmps(fact{iff.Cond, p.Succs[0] == b}) {
-			if c.Op == token.NEQ && c.Y != nil && (((sameValue(c.X, e) || phiIncludes(c.X, e)) && isNilConst(c.Y)) || ((sameValue(c.Y, e) || phiIncludes(c.Y, e)) && isNilConst(c.X))) {
-				errBlocks = append(errBlocks, b)
+		for k, b := range p.Succs {
+			for _, c := range trueCmps(fact{iff.Cond, k == 0}) {
+				if c.Op == token.NEQ && c.Y != nil && (((sameValue(c.X, e) || phiIncludes(c.X, e)) && isNilConst(c.Y)) || ((sameValue(c.Y, e) || phiIncludes(c.Y, e)) && isNilConst(c.X))) {
+					errBlocks = append(errBlocks, b)
+				}
 			}
 		}
 	}
